@@ -333,8 +333,8 @@ class CSSStyleSheet(cssutils.stylesheets.StyleSheet):
                 {
                     'S': S,
                     'COMMENT': COMMENT,
-                    'CDO': lambda *ignored: None,
-                    'CDC': lambda *ignored: None,
+                    'CDO': S,
+                    'CDC': S,
                     'CHARSET_SYM': charsetrule,
                     'FONT_FACE_SYM': fontfacerule,
                     'IMPORT_SYM': importrule,
